@@ -231,6 +231,10 @@ def optLe : Option Str → Option Str → Bool
 def fmtCommaLines (_k v : Str) : Str :=
   Text.join [',', '\n'] ((Text.splitOn ',' v).map Text.trim)
 
+/-- a formatter that rewrites its value: items split on ',', trimmed, sorted (`String::cmp`), joined by ", " -/
+def fmtSortItems (_k v : Str) : Str :=
+  Text.join [',', ' '] (((Text.splitOn ',' v).map Text.trim).mergeSort strLe)
+
 def decCfg (f : String) : Option (WrapCfg × String × String × String) :=
   match f.splitOn "/" with
   | [ind, imm, mx, ecmp, pcmp, fmt] => do
@@ -240,12 +244,14 @@ def decCfg (f : String) : Option (WrapCfg × String × String × String) :=
   | _ => none
 
 def wrapOnce (level : String) (cfg : WrapCfg) (ecmp pcmp fmt : String) (root : DNode) : Option DNode :=
-  let f : Option (Str → Str → Str) := if fmt == "i" then some (fun _ v => v) else if fmt == "u" then some fmtCommaLines else none
+  let f : Option (Str → Str → Str) := if fmt == "i" then some (fun _ v => v) else if fmt == "u" then some fmtCommaLines
+    else if fmt == "s" then some fmtSortItems else none
   let ele : Option (DNode → DNode → Bool) :=
     if ecmp == "k" then some (fun a b => optLe (entryKey a) (entryKey b))
     else if ecmp == "v" then some (fun a b => strLe (entryValue a) (entryValue b)) else none
   let ple : Option (DNode → DNode → Bool) :=
-    if pcmp == "p" then some (fun a b => optLe (Deb.get a "Package".toList) (Deb.get b "Package".toList)) else none
+    if pcmp == "p" then some (fun a b => optLe (Deb.get a "Package".toList) (Deb.get b "Package".toList))
+    else if pcmp == "d" then some (fun a b => optLe (Deb.get a "Depends".toList) (Deb.get b "Depends".toList)) else none
   if fmt == "c" then
     -- the control-file wrappers (Model/CtlWrap): Control at document level, Source / Binary on one
     -- paragraph; comparators fixed by the wrapper
